@@ -459,6 +459,9 @@ def _must_name(tree, s):
     return out
 
 
+# libFuzzer executions per shard and @given test of the coverage-guided extra of the thorough tier (vp/fuzz.py)
+FUZZ = 2000
+
 TESTS = [
     Test('leaf', run_leaf, strategy=lambda tier: leaf_cases(),
          examples={'quick': 12000, 'thorough': 600000}),
